@@ -245,6 +245,10 @@ func (e *Engine) CrashCommit(t *kernel.Tape) string {
 			k = hi
 		}
 		where = boundaryLabel(rel, k)
+		if lo > 0 && k >= lo && k <= hi {
+			// which of the concurrent writers finished last is not reproducible
+			where = "blockstore.concurrent-writers#done"
+		}
 		label = "crash/" + crashPhase(rel, k)
 		return k
 	})
